@@ -1704,6 +1704,11 @@ fn cover_proj(profile: &str, p: &Pools, rng: &mut Rng, out: &mut Vec<String>, pi
                 emit1s("subnormal_det_proj", vec![m, Val::I(route)], F2, out, pid);
             } } }
         }
+        "C12" => {
+            // centroid of 2^24 + 1 equal points (one call per dimension: each allocates the slice)
+            emit1("centroid_big_proj", vec![Val::P1(Point1::new(q(*rng.pick(&[3, 7, -5, 11, 1000]), 1)))], out, pid);
+            emit1("centroid_big_proj", vec![Val::P2(Point2::new(q(*rng.pick(&[3, -7, 5, 999]), 1), q(*rng.pick(&[-3, 13, 1]), 1)))], out, pid);
+        }
         "C05" | "C06" => {
             let (z, o) = (q(0, 1), q(1, 1));
             let e = [Vector3::new(o, z, z), Vector3::new(z, o, z), Vector3::new(z, z, o)];
